@@ -94,6 +94,10 @@ MUTSETS = {
                'BoolXOREliminateBinary', 'BVNormalizeConstants',
                'BVSimplifyConstants', 'BVExtractConstants'],
     'erase': ['EraseNode'],
+    # binary reduction next to node removal on an input with many commands:
+    # what the ddmin phase of hybrid rejects, the last hierarchical pass has
+    # to offer again
+    'binred': ['BinaryReduction', 'EraseNode'],
     'core': ['EraseNode', 'ReplaceByChild', 'Constants'],
     'elim': ['EliminateVariable', 'LetSubstitution'],
     'mix': ['EraseNode', 'ReplaceByChild', 'EliminateVariable',
